@@ -94,9 +94,25 @@ pub fn c11_replay(v: &Value) -> Vec<Fail> {
         return vec![fail("bad-replay", "need a and b")];
     };
     match (a.parse::<Locale>(), b.parse::<Locale>()) {
-        (Ok(a), Ok(b)) => c11_check_pair(&a, &b),
+        (Ok(a), Ok(b)) => {
+            // operands that were built along a named construction route are rebuilt along it
+            let a = match v["route_a"].as_u64() {
+                Some(k) => reroute_k(&a, k as usize).0,
+                None => a,
+            };
+            let b = match v["route_b"].as_u64() {
+                Some(k) => reroute_k(&b, k as usize).0,
+                None => b,
+            };
+            c11_check_pair(&a, &b)
+        }
         _ => vec![fail("bad-replay", "operands do not parse")],
     }
+}
+
+thread_local! {
+    /// construction routes of the operands being judged (0 = as parsed, k + 1 = route k), for the witness
+    static ROUTE_CTX: std::cell::Cell<(usize, usize)> = std::cell::Cell::new((0, 0));
 }
 
 fn judge_pair(ctx: &mut Ctx, a: &Locale, b: &Locale) {
@@ -125,7 +141,15 @@ fn judge_pair(ctx: &mut Ctx, a: &Locale, b: &Locale) {
         ctx.viol_total += 1;
         ctx.count_dyn(&format!("violation:{}", f.clause));
         if ctx.may_minimise(&f.clause) {
-            ctx.add_violation(&f.clause, json!({"a": a.to_string(), "b": b.to_string()}), json!(null), f.detail);
+            let (ka, kb) = ROUTE_CTX.with(|c| c.get());
+            let mut w = json!({"a": a.to_string(), "b": b.to_string()});
+            if ka > 0 {
+                w["route_a"] = json!(ka - 1);
+            }
+            if kb > 0 {
+                w["route_b"] = json!(kb - 1);
+            }
+            ctx.add_violation(&f.clause, w, json!(null), f.detail);
         }
     }
 }
@@ -185,6 +209,18 @@ pub fn run_c11(ctx: &mut Ctx) {
                     ctx.count_n("product:operand rebuilt by from_raw_parts_unchecked", 2);
                     judge_pair(ctx, &raw_route(&la), &lb);
                     judge_pair(ctx, &la, &raw_route(&lb));
+                }
+                // ... and along every other construction route (re-parse, from_parts with shuffled variants, default +
+                // setters, set_variants(&[]), add-then-remove, clear + re-add): matches() reads the representation, and
+                // two routes to one logical value need not leave the same representation behind
+                {
+                    let k = unit % N_ROUTES;
+                    ROUTE_CTX.with(|c| c.set((k + 1, 0)));
+                    judge_pair(ctx, &reroute_k(&la, k).0, &lb);
+                    ROUTE_CTX.with(|c| c.set((0, (k + 3) % N_ROUTES + 1)));
+                    judge_pair(ctx, &la, &reroute_k(&lb, (k + 3) % N_ROUTES).0);
+                    ROUTE_CTX.with(|c| c.set((0, 0)));
+                    ctx.count_n("product:operand rebuilt along another construction route", 2);
                 }
             }
         }
@@ -296,6 +332,13 @@ pub fn run_c11(ctx: &mut Ctx) {
         mon::begin_case(&ta);
         ctx.count("random-pairs");
         judge_pair(ctx, &la, &lb);
+        if r.chance(1, 4) {
+            let k = r.below(N_ROUTES);
+            ROUTE_CTX.with(|c| c.set((k + 1, 0)));
+            judge_pair(ctx, &reroute_k(&la, k).0, &lb);
+            ROUTE_CTX.with(|c| c.set((0, 0)));
+            ctx.count("random-pairs: operand rebuilt along another construction route");
+        }
     }
     ctx.rng_state = None;
     mon::idle();
@@ -344,8 +387,13 @@ fn raw_route(l: &Locale) -> Locale {
     m
 }
 
+pub const N_ROUTES: usize = 8;
 fn reroute(l: &Locale, r: &mut Rng) -> (Locale, &'static str) {
-    match r.below(7) {
+    reroute_k(l, r.below(N_ROUTES))
+}
+/// The same logical value built along route `k` (deterministic, so a witness can name the route).
+pub fn reroute_k(l: &Locale, k: usize) -> (Locale, &'static str) {
+    match k {
         6 => (raw_route(l), ROUTE_RAW),
         0 => {
             let t = l.to_string();
@@ -392,14 +440,14 @@ fn reroute(l: &Locale, r: &mut Rng) -> (Locale, &'static str) {
             }
             (m, "add-then-remove / set_variants")
         }
-        4 => {
-            // default + assignment of every part
+        4 | 7 => {
+            // default + assignment of every part (route 7: set_variants is not called for an empty list)
             let mut m = Locale::default();
             m.id.language = l.id.language;
             m.id.script = l.id.script;
             m.id.region = l.id.region;
             let vs: Vec<Variant> = l.id.variants().cloned().collect();
-            if !vs.is_empty() || r.chance(1, 2) {
+            if !vs.is_empty() || k == 4 {
                 m.id.set_variants(&vs);
             }
             for a in l.extensions.unicode.attributes().collect::<Vec<_>>().into_iter().rev() {
@@ -419,7 +467,7 @@ fn reroute(l: &Locale, r: &mut Rng) -> (Locale, &'static str) {
             for t in l.extensions.private.tags().collect::<Vec<_>>().into_iter().rev() {
                 let _ = m.extensions.private.add_tag(t);
             }
-            (m, "default+setters(reverse order)")
+            (m, if k == 4 { "default+setters(reverse order), set_variants always" } else { "default+setters(reverse order)" })
         }
         _ => {
             let mut m = l.clone();
